@@ -106,6 +106,8 @@ def content_eq(a, b):
     a, b = str.__str__(a), str.__str__(b)
     if a == b:
         return True
+    if not a or not b:
+        return False      # every token denotes at least one character: a non-empty string never equals ""
     ta = any(is_tok(c) and tok(c)["kind"] == "atom" for c in a)
     tb = any(is_tok(c) and tok(c)["kind"] == "atom" for c in b)
     if ta or tb:
